@@ -19,6 +19,7 @@ func init() {
 		Assumptions: []string{"sort.Slice sorts by the given less function", "status.Error(f) builds a status with the given code"},
 		Run:         runC01,
 		Controls: []Control{
+			{Name: "pullid-drops-its-options", File: "pkg/resource/collection.go", Old: "\tchanges := c.Pull(ctx, opts...)\n", New: "\tchanges := c.Pull(ctx)\n", Expect: "R01.13"},
 			{Name: "allow-missing-ignores-argument", File: "pkg/resource/opt.go", Old: "\t\trequest.allowMissing = allowMissing\n", New: "\t\trequest.allowMissing = true\n", Expect: "R01.12"},
 			{Name: "delete-value-before-check", File: "pkg/resource/collection.go", Old: "\t\tif args.expectedCheck != nil {\n\t\t\tif err := args.expectedCheck(oldVal.body); err != nil {\n\t\t\t\treturn oldVal.body, err\n\t\t\t}\n\t\t}\n\t\tif args.expectedValue != nil && !proto.Equal(oldVal.body, args.expectedValue) {\n\t\t\treturn oldVal.body, ExpectedValuePreconditionFailed\n\t\t}\n", New: "\t\tif args.expectedValue != nil && !proto.Equal(oldVal.body, args.expectedValue) {\n\t\t\treturn oldVal.body, ExpectedValuePreconditionFailed\n\t\t}\n\t\tif args.expectedCheck != nil {\n\t\t\tif err := args.expectedCheck(oldVal.body); err != nil {\n\t\t\t\treturn oldVal.body, err\n\t\t\t}\n\t\t}\n", Expect: "R01.11"},
 			{Name: "drop-change-error-test", File: "pkg/resource/atomic.go", Old: "\tif newValue, err = change(oldValue, newValue); err != nil {\n\t\treturn oldValue, newValue, err\n\t}", New: "\tnewValue, err = change(oldValue, newValue)", Expect: "R01.1"},
@@ -65,6 +66,10 @@ func runC01(c *an.Ctx) {
 	c.Min("R01.5", 3)
 	r0111(c)
 	r0112(c, "R01.12")
+	r0113(c, "R01.13")
+	c.Min("R01.13", 40)
+	r0114(c, "R01.14")
+	c.Min("R01.14", 4)
 	c.Min("R01.12", 20)
 	c.Min("R01.11", 1)
 	c.Min("R01.6", 6)
@@ -1668,4 +1673,50 @@ func r0112(c *an.Ctx, rule string) {
 			"parameter "+strings.Join(unused, ", ")+" is never used: the option ignores what the caller asked for (WithAllowMissing(false) still allows a missing item, so Delete of an unknown id reports success instead of NotFound)")
 	}
 	c.Count("option_constructors_with_parameters", n)
+}
+
+// r0113: options that are passed in are passed on. Every function of the module that takes a variadic list of options
+// (…Option) uses that parameter: applies it, forwards it, or hands it to a constructor. An entry point that drops it
+// (PullID calling c.Pull(ctx) without its opts) silently ignores read mask, updates-only, backpressure and include.
+func r0113(c *an.Ctx, rule string) {
+	n := 0
+	for _, fn := range c.Prog.FuncsIn("pkg") {
+		if c.Prog.IsGenerated(fn.Pos()) || fn.Parent() != nil || !fn.Signature.Variadic() || len(fn.Params) == 0 || len(fn.Blocks) == 0 {
+			continue
+		}
+		vp := fn.Params[len(fn.Params)-1]
+		sl, isSl := vp.Type().Underlying().(*types.Slice)
+		if en := ""; !isSl {
+			continue
+		} else if en = an.NamedTypeName(sl.Elem()); !strings.HasSuffix(en, "Option") || !strings.HasPrefix(en, an.ModulePath) {
+			continue
+		}
+		n++
+		used := false
+		for _, u := range an.Referrers(vp) {
+			if _, isDbg := u.(*ssa.DebugRef); !isDbg {
+				used = true
+			}
+		}
+		c.SawFunc(an.FuncName(fn))
+		c.Check(used, rule, an.FuncName(fn)+"|the options it is given are used", fn.Pos(), "the variadic options are applied or passed on",
+			"the function never uses its variadic options: whatever the caller asked for - a read mask, updates only, backpressure, an include predicate, an update mask - is silently ignored")
+	}
+	c.Count("functions_taking_options", n)
+}
+
+// r0114: the update-mask validation rules of C05 (R05.2, R05.6) seen from C01: a write whose mask names a read-only or
+// unknown field is a call that fails and changes nothing.
+func r0114(c *an.Ctx, rule string) {
+	sub := an.NewCtx(c.Prog, c.Property, c.Tier)
+	r052(sub)
+	r065as(sub, "R05.6")
+	n := 0
+	for _, o := range sub.Obls {
+		o.Key = rule + "|" + o.Construct
+		o.Rule = rule
+		c.Obls = append(c.Obls, o)
+		n++
+	}
+	c.Count("shared_mask_validation_obligations", n)
 }
